@@ -97,9 +97,9 @@ func init() {
 			"distinct_nontrivial counts distinct (entity-kind counts, universe sizes, association count, zone) signatures of messages with at least one entity",
 		Cases: func(tier string) int {
 			if tier == "thorough" {
-				return 50000
+				return 120000
 			}
-			return 3000
+			return 20000
 		},
 		Run: runC02,
 		Assumptions: []string{
